@@ -5,6 +5,7 @@ import (
 	"errors"
 	"fmt"
 	pb "github.com/google/go-tdx-guest/proto/tdx"
+	"github.com/google/go-tdx-guest/verify/trust"
 	"google.golang.org/protobuf/proto"
 	"strings"
 	"testing"
@@ -84,6 +85,14 @@ func TestC12(t *testing.T) {
 			}
 			gen.Eval()
 			verdicts[i] = gen.Call(func() error { return verify.RawTdxQuote(w.Raw, o) })
+			if !o.GetCollateral {
+				// the exported level report on the same options value: with collateral checking off it has nothing to
+				// report on, and it downloads nothing either
+				if m, err := gen.RefParse(w.Raw); err == nil {
+					mm := m.ToProto()
+					_ = gen.Call(func() error { _, _, err := verify.SupportedTcbLevelsFromCollateral(mm, o); return err })
+				}
+			}
 			logs[i] = g.Requests()
 			if o.Now != nil && *o.Now != before {
 				gen.Fail(t, gen.Violation{Key: "callers-time-set-modified", Oracle: "the verdict depends only on the quote, the option settings and the fetched data (a call that rewrites the caller's time set changes the settings of the next call)", Detail: fmt.Sprintf("fault=%s level=%s: time set before %+v, after %+v", f.Name, l, before, *o.Now), Replay: w.CaseFile(l, nil, nil, nil, "nopanic")})
@@ -434,6 +443,53 @@ func TestC12(t *testing.T) {
 						Detail: fmt.Sprintf("after %d steps: shared options and the kept message = %s, fresh options and a copy of it = %s; history: %s", len(hist), vs, vf, strings.Join(hist, " ; ")), Replay: map[string]any{"kind": "history", "history": hist}})
 				}
 			},
+			// the exported level report through the shared options value: it never downloads while collateral checking is off
+			"level-report": func(t *rapid.T) {
+				i := rapid.IntRange(0, nW-1).Draw(t, "world")
+				rq, err := gen.RefParse(worlds[i].Raw)
+				if err != nil {
+					t.Skip("world's quote does not parse")
+				}
+				msg := rq.ToProto()
+				shared.GetCollateral, shared.CheckRevocations = cur.gc, cur.cr
+				before := len(getters[cur.getter].Requests())
+				gen.Eval()
+				v := gen.Call(func() error { _, _, err := verify.SupportedTcbLevelsFromCollateral(msg, shared); return err })
+				made := getters[cur.getter].Requests()[before:]
+				hist = append(hist, fmt.Sprintf("level report for world %d gc=%v -> %s, %d requests", i, cur.gc, v.Short(), len(made)))
+				if !cur.gc && len(made) > 0 {
+					gen.Fail(t, gen.Violation{Key: "fetch-without-get-collateral:level-report", Oracle: "with collateral checking off the verifier performs no fetch at all", Detail: fmt.Sprintf("SupportedTcbLevelsFromCollateral on an options value with GetCollateral=false requested %v; history: %s", made, strings.Join(hist, " ; ")), Replay: map[string]any{"kind": "history", "history": hist}})
+				}
+			},
+			// the getter is the caller's code: here it verifies ANOTHER quote through the same options value while the
+			// library waits for its first answer (one goroutine, a nested call). The outer verdict is that of fresh options.
+			"verify-while-the-getter-verifies-another-quote": func(t *rapid.T) {
+				i, j := rapid.IntRange(0, nW-1).Draw(t, "world"), rapid.IntRange(0, nW-1).Draw(t, "nestedWorld")
+				if !cur.gc {
+					t.Skip("no download, no nested call")
+				}
+				fts := worlds[cur.times].Times
+				fresh := &verify.Options{GetCollateral: cur.gc, CheckRevocations: cur.cr, Getter: worlds[cur.getter].NewGetter(), TrustedRoots: pools[cur.pool], Now: &fts}
+				shared.GetCollateral, shared.CheckRevocations = cur.gc, cur.cr
+				nested := false
+				inner := shared.Getter
+				shared.Getter = nestingGetter{inner: inner, f: func() {
+					if !nested {
+						nested = true
+						_ = gen.Call(func() error { return verify.RawTdxQuote(worlds[j].Raw, shared) })
+					}
+				}}
+				gen.Eval()
+				vs := gen.Call(func() error { return verify.RawTdxQuote(worlds[i].Raw, shared) })
+				shared.Getter = inner
+				vf := gen.Call(func() error { return verify.RawTdxQuote(worlds[i].Raw, fresh) })
+				hist = append(hist, fmt.Sprintf("verify world %d (%s) while the getter verifies world %d (%s) through the same options value (nested=%v) gc=%v cr=%v -> shared %s / fresh %s", i, faults[i].Name, j, faults[j].Name, nested, cur.gc, cur.cr, vs.Short(), vf.Short()))
+				distinctWorlds[i], distinctWorlds[j] = true, true
+				if !sameOutcome(vs, vf) {
+					gen.Fail(t, gen.Violation{Key: "history-dependent-verdict:nested-call-from-the-getter", Oracle: "the verdict depends only on the quote, the option settings and the fetched data",
+						Detail: fmt.Sprintf("after %d steps: shared=%s fresh=%s; history: %s", len(hist), vs, vf, strings.Join(hist, " ; ")), Replay: map[string]any{"kind": "history", "history": hist}})
+				}
+			},
 			"toggle-collateral": func(t *rapid.T) { cur.gc = !cur.gc; toggles++; hist = append(hist, "toggle gc") },
 			"toggle-revocation": func(t *rapid.T) { cur.cr = !cur.cr; toggles++; hist = append(hist, "toggle cr") },
 			"swap-getter": func(t *rapid.T) {
@@ -530,4 +586,15 @@ func init() {
 		}
 		return ""
 	}
+}
+
+// nestingGetter runs f before every request it passes on.
+type nestingGetter struct {
+	inner trust.HTTPSGetter
+	f     func()
+}
+
+func (n nestingGetter) Get(u string) (map[string][]string, []byte, error) {
+	n.f()
+	return n.inner.Get(u)
 }
